@@ -720,6 +720,16 @@ func (env *SpecEnv) index(xv *Value, i Term) *Value {
 	}
 	switch u := xv.T.Underlying().(type) {
 	case *types.Slice:
+		if env.shift != nil && len(xv.C) > 1 && xv.C[1].S != "0" {
+			// a bound variable indexing a slice at a non-zero offset: quantify over the position in the backing array
+			for _, bn := range env.bound {
+				if bn == i.S {
+					if _, ok := env.shift[bn]; !ok {
+						env.shift[bn] = xv.C[1]
+					}
+				}
+			}
+		}
 		return x.Load(env.st, &Ptr{Heap: xv.C[0], Elem: true, RootT: u.Elem(), Idx: Add(xv.C[1], i)})
 	case *types.Array:
 		l := x.eng.layout(u.Elem())
